@@ -632,6 +632,29 @@ theorem runSched_reachable {σ σ' : State} {ts : List Nat} (h : runSched σ ts 
       simp only [hs, Option.bind_some] at h
       exact Reachable.head hs (ih h)
 
+theorem Reachable.trans {σ σ' σ'' : State} (h₁ : Reachable σ σ') (h₂ : Reachable σ' σ'') :
+    Reachable σ σ'' := by
+  induction h₂ with
+  | refl => exact h₁
+  | tail _ hs ih => exact .tail ih hs
+
+/-- thread `t` runs until it is blocked or has finished (at most `fuel` steps) -/
+def runThread (σ : State) (t : Nat) : Nat → State
+  | 0 => σ
+  | fuel + 1 =>
+    match step σ t with
+    | some σ' => runThread σ' t fuel
+    | none => σ
+
+theorem runThread_reachable (σ : State) (t fuel : Nat) : Reachable σ (runThread σ t fuel) := by
+  induction fuel generalizing σ with
+  | zero => exact .refl σ
+  | succ n ih =>
+    simp only [runThread]
+    cases hs : step σ t with
+    | none => exact .refl σ
+    | some σ' => exact Reachable.head hs (ih σ')
+
 /-- the example system really runs, interleaved, to completion … -/
 example : ((runSched (init [exReader, exWriter]) [0, 0, 0, 0, 0, 0, 1, 1, 1, 1]).map
     (·.threads)) = some [[], []] := by decide
